@@ -234,6 +234,8 @@ def _validate_types(nodes: dict[str, HyperNode], nx_graph: nx.DiGraph) -> None:
         value_names = edge_data.get("value_names")
         if not value_names:
             continue
+        if edge_data.get("edge_type") != "data":
+            continue  # ordering edges (wait_for) name a signal, they carry no value to type-check
 
         source_node = nodes[source_name]
         target_node = nodes[target_name]
